@@ -5,27 +5,27 @@ def c10(tier):
     runs = []
     if tier == "quick":
         for t in TOPOS_QUICK:
-            runs.append(H("c10_morph", "plain", 300, t, timeout_per_case=20))
-        runs.append(H("c10_sepinout", "plain", 160, "4,4,4,4", timeout_per_case=20))
-        runs.append(H("c10_morph", "asan", 90, "4,4,4,4", timeout_per_case=60, params=dict(maxitems=1200)))
-        runs.append(H("c10_sepinout", "asan", 40, "3,5", timeout_per_case=60, params=dict(maxitems=1200)))
+            runs.append(H("c10_morph", "plain", 300, t, timeout_per_case=8))
+        runs.append(H("c10_sepinout", "plain", 160, "4,4,4,4", timeout_per_case=8))
+        runs.append(H("c10_morph", "asan", 90, "4,4,4,4", timeout_per_case=20, params=dict(maxitems=1200)))
+        runs.append(H("c10_sepinout", "asan", 40, "3,5", timeout_per_case=20, params=dict(maxitems=1200)))
     else:
         for t in TOPOS_THOROUGH:
-            runs.append(H("c10_morph", "plain", 350, t, timeout_per_case=30))
-            runs.append(H("c10_sepinout", "plain", 120, t, timeout_per_case=30))
+            runs.append(H("c10_morph", "plain", 600, t, timeout_per_case=8))
+            runs.append(H("c10_sepinout", "plain", 200, t, timeout_per_case=8))
         for t in (None, "4,4,4,4", "3,5"):
-            runs.append(H("c10_morph", "asan", 150, t, timeout_per_case=90, params=dict(maxitems=2500)))
-        runs.append(H("c10_sepinout", "asan", 80, "4,4,4,4", timeout_per_case=90, params=dict(maxitems=2500)))
+            runs.append(H("c10_morph", "asan", 250, t, timeout_per_case=20, params=dict(maxitems=2500)))
+        runs.append(H("c10_sepinout", "asan", 120, "4,4,4,4", timeout_per_case=20, params=dict(maxitems=2500)))
         # more threads than CPUs: owners are descheduled while owning
         for cpus in (2, 4):
-            runs.append(H("c10_morph", "plain", 80, "12,12,8", cpus=cpus, timeout_per_case=120,
+            runs.append(H("c10_morph", "plain", 120, "12,12,8", cpus=cpus, timeout_per_case=30,
                           params=dict(maxitems=2500, mode="loop")))
         # TSan only as a further schedule-perturbing configuration (reports are not judged here).
         # selfloops=0: while the self-loop removeEdge defect is open, edges.erase(end()) on a sorted-neighbour graph
         # becomes a memmove of ~2^64 bytes which TSan's interceptor walks for hours instead of faulting (plain and asan
         # die at once and are reported); drop the parameter once the defect is fixed.
-        runs.append(H("c10_morph", "tsan", 100, "4,4,4,4", timeout_per_case=25, params=dict(maxitems=1500, selfloops=0)))
-        runs.append(H("c10_sepinout", "tsan", 40, "3,5", timeout_per_case=25, params=dict(maxitems=1500, selfloops=0)))
+        runs.append(H("c10_morph", "tsan", 200, "4,4,4,4", timeout_per_case=25, params=dict(maxitems=1500, selfloops=0)))
+        runs.append(H("c10_sepinout", "tsan", 80, "3,5", timeout_per_case=25, params=dict(maxitems=1500, selfloops=0)))
     return runs
 
 
